@@ -1,12 +1,14 @@
 SPECIFICATION Spec
 CONSTANTS
-  Scenarios <- QuickScenarios
+  Scenarios <- C01QuickScenarios
   Ticks = FALSE
   SkipFix = TRUE
   CctFix = TRUE
+  SelfFailFix = TRUE
   QMax = 100
   PPInterval = 2
   TestMode = TRUE
+  FaultKinds <- NoFaults
   MaxEternal = 2
 VIEW view
 INVARIANT TypeOK
